@@ -13,7 +13,7 @@
                    delivered the right bytes); the request carries the leader's context
     freq k         the same exchange in two parts, for a server that stalls: the request
     fbody k ok     reaches the server (freq), later the body arrives or the transfer fails
-                   (fbody); a leader cancelled in between makes the transfer fail
+                   (fbody); a leader cancelled in between makes the transfer fail at once
     fstore k       the flight: newRc + `a.rc.Swap(key, rc)` (with the double-store branch)
     fend k         singleflight deletes the call and hands the result to every waiter
     cancel t       the context of a task blocked in the select is cancelled
@@ -23,6 +23,11 @@
     init t ok      `l.Init` (ok = the bytes are a tar archive); on failure the ref is closed
     close t        the closer stored in *cl: Layer.Close, f.Close, ref.Close -> rc.dec
     finalize i     (old code only) the garbage collector runs (*ref).Close on an abandoned ref
+    ftmpfail k     the flight: `openTemp` fails (the arena directory is gone, the disk is full):
+                   nothing was opened, no request is made
+    aclose         `RemoteFetchArena.Close`: every key is deleted from the map; the rcs, their
+                   counts and their files are left alone (whoever holds one still reads it and
+                   closes the file with its last reference; `CompareAndDelete` then finds nothing)
   `dec` at zero runs `done()` (forget the key) and closes the file, all under the rc mutex.
 
   `fixed = true` is the code as it is now: `done` is CompareAndDelete(key, rc) and the stale
@@ -78,6 +83,10 @@ structure State where
   leaked : List Nat := []                -- rc ids of abandoned (unclosed, unreachable) refs
   hits : Nat → Nat := fun _ => 0         -- requests that reached the server, per key
   orphans : List Nat := []               -- ghost: rcs whose flight ended with nobody waiting
+  detached : Nat → Bool := fun _ => false -- ghost: rcs whose file was open when the arena was Closed
+  stales : Nat → Nat := fun _ => 0       -- ghost: errStale outcomes seen by each task
+  deaths : Nat → Nat := fun _ => 0       -- ghost: per key, rcs whose count went back to zero (file closed)
+  skeys : List Nat := []                 -- ghost: the key each task was spawned for
 
 def init : State := {}
 
@@ -98,6 +107,8 @@ inductive Op where
   | close (t : Nat)
   | finalize (i : Nat)
   | query (k : Nat)
+  | aclose
+  | ftmpfail (k : Nat)
 deriving DecidableEq, Repr
 
 inductive Out where
@@ -113,6 +124,8 @@ inductive Out where
   | closedOk | botch
   | finalized
   | state
+  | aclosed
+  | tmperr
   | bad                     -- the operation is not enabled in this state
 deriving DecidableEq, Repr
 
@@ -128,7 +141,8 @@ def dec (fixed : Bool) (s : State) (r : Nat) : State × Bool :=
     ({ s with rc := upd s.rc r { s.rc r with count := 0, fileOpen := false },
               arena := if fixed then
                          (if s.arena (s.rc r).key = some r then upd s.arena (s.rc r).key none else s.arena)
-                       else upd s.arena (s.rc r).key none }, false)
+                       else upd s.arena (s.rc r).key none,
+              deaths := upd s.deaths (s.rc r).key (s.deaths (s.rc r).key + 1) }, false)
   else ({ s with rc := upd s.rc r { s.rc r with count := (s.rc r).count - 1 } }, false)
 
 /-- What every waiter of the flight on `k` becomes when the flight ends. -/
@@ -148,7 +162,7 @@ def resultOf : Phase → Option (Option Nat)
   | _ => none
 
 def stepG (fixed : Bool) (s : State) : Op → State × Out
-  | .spawn k => ({ s with tasks := s.tasks ++ [.ready k] }, .spawned s.tasks.length)
+  | .spawn k => ({ s with tasks := s.tasks ++ [.ready k], skeys := s.skeys ++ [k] }, .spawned s.tasks.length)
   | .enter t =>
     match s.tasks[t]? with
     | some (.ready k) =>
@@ -205,7 +219,8 @@ def stepG (fixed : Bool) (s : State) : Op → State × Out
           -- double store: the new rc replaced the old entry, then `rc.Ref().Close()` forgets
           -- the key and closes the new file
           ({ setPhase s k f .failed with
-               nrc := s.nrc + 1, rc := upd s.rc s.nrc ⟨k, 0, false⟩, arena := upd s.arena k none }, .double)
+               nrc := s.nrc + 1, rc := upd s.rc s.nrc ⟨k, 0, false⟩, arena := upd s.arena k none,
+               deaths := upd s.deaths k (s.deaths k + 1) }, .double)
       else (s, .bad)
     | none => (s, .bad)
   | .fend k =>
@@ -225,7 +240,10 @@ def stepG (fixed : Bool) (s : State) : Op → State × Out
       match s.flight k with
       | some f =>
         if f.leader = t then
-          ({ setTask s t .failed with flight := upd s.flight k (some { f with ctxDead := true }) }, .leaderCancelled)
+          -- a transfer in progress runs under this context: it fails now
+          ({ setTask s t .failed with
+               flight := upd s.flight k
+                 (some ⟨f.leader, if f.phase = .requesting then .failed else f.phase, true⟩) }, .leaderCancelled)
         else (setTask s t .failed, .cancelled)
       | none => (setTask s t .failed, .cancelled)
     | some (.ready _) => (s, .bad)
@@ -240,7 +258,7 @@ def stepG (fixed : Bool) (s : State) : Op → State × Out
     match s.tasks[t]? with
     | some (.reffed k r) =>
       if (s.rc r).fileOpen then (setTask s t (.opened k r), .valOk)
-      else (setTask s t (.staleRef k r), .valStale)
+      else ({ setTask s t (.staleRef k r) with stales := upd s.stales t (s.stales t + 1) }, .valStale)
     | _ => (s, .bad)
   | .retry t =>
     match s.tasks[t]? with
@@ -264,6 +282,13 @@ def stepG (fixed : Bool) (s : State) : Op → State × Out
     | some r => ({ (dec fixed s r).1 with leaked := s.leaked.eraseIdx i }, .finalized)
     | none => (s, .bad)
   | .query _ => (s, .state)
+  | .ftmpfail k =>
+    match s.flight k with
+    | some f => if f.phase = .missed then (setPhase s k f .failed, .tmperr) else (s, .bad)
+    | none => (s, .bad)
+  | .aclose =>
+    ({ s with arena := fun _ => none,
+              detached := fun r => s.detached r || (s.rc r).fileOpen }, .aclosed)
 
 /-- The code as it is now. -/
 def step : State → Op → State × Out := stepG true
